@@ -163,7 +163,16 @@ impl World for WorldC {
     }
 
     fn generate(rng: &mut Rng, _p: GenParams) -> (CCfg, Vec<COp>) {
-        let lens: [u16; 10] = [0, 1, 20, 31, 32, 33, 63, 64, 65, 300];
+        // mostly short fields; one time in seven a field of one to forty kilobytes (any fixed-size buffer,
+        // page or word-count limit in the decoder sits somewhere in between)
+        let small: [u16; 10] = [0, 1, 20, 31, 32, 33, 63, 64, 65, 300];
+        let large: [u16; 10] = [1000, 1023, 1024, 2047, 2048, 2049, 4096, 5000, 16_384, 40_000];
+        let mut lens: [u16; 10] = small;
+        for l in lens.iter_mut() {
+            if rng.chance(1, 7) {
+                *l = *rng.pick(&large);
+            }
+        }
         let gen_msg = |rng: &mut Rng| -> CMsg {
             let kind = if rng.chance(1, 2) {
                 CKind::Transfer {
@@ -203,7 +212,7 @@ impl World for WorldC {
                     };
                     COp::Hostile { base: gen_msg(rng), m }
                 }
-                _ => COp::Random { len: *rng.pick(&[0u16, 1, 31, 32, 33, 64, 96, 128, 320, 1000]), tag: rng.next_u64() as u32 },
+                _ => COp::Random { len: *rng.pick(&[0u16, 1, 31, 32, 33, 64, 96, 128, 320, 1000, 2048, 2049, 2080, 4128, 40_000]), tag: rng.next_u64() as u32 },
             };
             ops.push(op);
         }
